@@ -64,6 +64,8 @@ func tqFuncs(p *Prog) []*ssa.Function {
 }
 
 func runC02(c *Ctx) {
+	transferPathIsLocal(c, "R1")
+	downloadFileHoldsOnlyVerifiedBytes(c, "R3")
 	p := c.P
 	hardLinksOnlyInLinkOrCopy(c, "R7")
 	failureSurvivesCleanup(c, "R2")
@@ -812,6 +814,7 @@ func c02Standalone(c *Ctx) {
 }
 
 var c02Canaries = []Canary{
+	{Name: "r6-failure-lost-after-cleanup", ExpectKey: "C02.R2#DoTransfer:failure-returned-after-cleanup", Edits: []Edit{{File: "tq/basic_download.go", Find: "\tif err != nil {\n\t\tf.Close()\n\t\t// Rename file so next download can resume from where we stopped.\n\t\t// No error checking here, if rename fails then file will be deleted and there just will be no download resuming\n\t\ttools.RobustRename(f.Name(), a.downloadFilename(t))\n\t}\n\n\treturn err\n", Repl: "\tif err != nil {\n\t\tf.Close()\n\t\t// Rename file so next download can resume from where we stopped.\n\t\t// If rename fails then file will be deleted and there just will be no download resuming\n\t\tif err = tools.RobustRename(f.Name(), a.downloadFilename(t)); err != nil {\n\t\t\ttracerx.Printf(\"xfer: unable to keep partial download of %q for resuming: %v\", t.Oid, err)\n\t\t}\n\t}\n\n\treturn err\n"}}},
 	{Name: "r5-hard-link-in-adapter", ExpectKey: "C02.R7", Edits: []Edit{{File: "tq/basic_download.go", Find: "\ttools.RobustRename(a.downloadFilename(t), f.Name())", Repl: "\tif err := os.Link(a.downloadFilename(t), f.Name()); err != nil {\n\t\ttools.RobustRename(a.downloadFilename(t), f.Name())\n\t}"}}},
 	{Name: "basic-drop-hash-test", ExpectKey: "C02.R1#publish:(*tq.basicDownloadAdapter).download", Edits: []Edit{{File: "tq/basic_download.go", Find: "	if actual := hasher.Hash(); actual != t.Oid {\n		return errors.New(", Repl: "	if actual := hasher.Hash(); actual != t.Oid && written < 0 {\n		return errors.New("}}},
 	{Name: "ssh-compare-name", ExpectKey: "C02.R1", Edits: []Edit{{File: "tq/ssh.go", Find: "	if actual := hasher.Hash(); actual != t.Oid {\n		return errors.New(tr.Tr.Get(\"expected OID %s, got %s after %d bytes written\", t.Oid, actual, written))\n	}\n\n	if err := f.Close(); err != nil {", Repl: "	if actual := hasher.Hash(); actual != t.Name {\n		return errors.New(tr.Tr.Get(\"expected OID %s, got %s after %d bytes written\", t.Oid, actual, written))\n	}\n\n	if err := f.Close(); err != nil {"}}},
